@@ -6,6 +6,7 @@ package c03
 
 import (
 	"bytes"
+	"strings"
 	"context"
 	"fmt"
 	"testing"
@@ -16,6 +17,8 @@ import (
 	"cedarsim/scen"
 	"cedarsim/simnet"
 
+	"github.com/PelicanPlatform/classad/classad"
+	"github.com/bbockelm/cedar/message"
 	"github.com/bbockelm/cedar/security"
 )
 
@@ -29,7 +32,9 @@ type params struct {
 	DevName string     `json:"dev_name"`
 	PAuth   bool       `json:"pauth"` // puppet server's base decision / puppet client's advertised levels
 	PEnc    bool       `json:"penc"`
-	Resume  string     `json:"resume,omitempty"` // "", "unauth-session", "keyless-session"
+	Resume  string     `json:"resume,omitempty"` // "" (full handshake) | authed-keyed | unauth-keyed | authed-keyless | unauth-keyless
+	Where   string     `json:"where,omitempty"`  // resumed, server role: own | fallback (how the server reaches the session)
+	Peer    string     `json:"peer,omitempty"`   // resumed, server role: "" real client | scripted (names the session id regardless)
 }
 
 var canary = []byte("CANARY-application-payload-7f3a9c")
@@ -210,10 +215,228 @@ func judge(s *kernel.Sim, p params, role string, herr error, n *security.Securit
 	}
 }
 
+
+// runResumed: the endpoint under test, with its strict policy, meets a resumption of a
+// session that was established earlier under a permissive policy (authenticated or not,
+// with a key or without). Both peers are real cedar endpoints. Server-side sessions are
+// filed in the process-wide cache; Where says whether the server under test looks there
+// directly ("own") or has a cache of its own and reaches the session through the fallback.
+func runResumed(s *kernel.Sim, c *scen.Case, p params) {
+	t := s.T
+	ctx := context.Background()
+	net := simnet.New(s, simnet.DrawConfig(t))
+	authed := strings.HasPrefix(p.Resume, "authed")
+	keyed := strings.HasSuffix(p.Resume, "-keyed")
+	m := []security.AuthMethod{security.AuthClaimToBe}
+	lvA := security.SecurityNever
+	if authed {
+		lvA = security.SecurityRequired
+	}
+	cliCache := security.NewSessionCache()
+	mkC1 := func() *security.SecurityConfig {
+		cfg := hs.Cfg(lvA, security.SecurityOptional, m, hs.AES, 60021)
+		cfg.SessionCache = cliCache
+		return cfg
+	}
+	mkS1 := func() *security.SecurityConfig {
+		ciph := hs.AES
+		if !keyed {
+			ciph = []security.CryptoMethod{security.CryptoBlowfish} // no common cipher: the session has no key
+		}
+		return hs.Cfg(lvA, security.SecurityOptional, m, ciph, security.NoCommand)
+	}
+	// phase 1: establish
+	pr1 := hs.NewPair(net, 1)
+	var n1c, n1s *security.SecurityNegotiation
+	var e1c, e1s error
+	s.Go("est-client", func() { n1c, e1c = security.NewAuthenticator(mkC1(), pr1.CS).ClientHandshake(ctx); pr1.CE.Close() })
+	s.Go("est-server", func() { n1s, e1s = security.NewAuthenticator(mkS1(), pr1.SS).ServerHandshake(ctx); pr1.SE.Close() })
+	s.Run()
+	if e1c != nil || e1s != nil || n1c == nil || n1s == nil {
+		s.Probe("resumed/establish-failed")
+		return
+	}
+	if n1s.Authentication != authed {
+		s.Probe("resumed/establish-unexpected-auth")
+		return
+	}
+	// phase 2: the endpoint under test with policy (A, E, Integ)
+	pr := hs.NewPair(net, 2)
+	strict := func(cmd int) *security.SecurityConfig {
+		cfg := hs.Cfg(hs.Levels[p.A], hs.Levels[p.E], m, hs.AES, cmd)
+		if p.Integ {
+			cfg.Integrity = security.SecurityRequired
+		}
+		return cfg
+	}
+	var n *security.SecurityNegotiation
+	var herr, sendErr error
+	var ut *simnet.Endpoint
+	var utStream interface{ IsEncrypted() bool }
+	if p.Role == "server" {
+		ut, utStream = pr.SE, pr.SS
+		cfg := strict(security.NoCommand)
+		if p.Where == "fallback" {
+			cfg.SessionCache = security.NewSessionCache()
+		}
+		s.Go("server", func() {
+			n, herr = security.NewAuthenticator(cfg, pr.SS).ServerHandshake(ctx)
+			if herr != nil {
+				pr.SE.Close()
+				return
+			}
+			sendErr = pr.SS.SendMessage(ctx, canary)
+		})
+		if p.Peer == "scripted" {
+			// a requester that names the session id whatever the session is (a real client
+			// does not try to resume a session it holds no key for)
+			s.Go("peer-requester", func() {
+				st := pr.CS
+				ad := classad.New()
+				_ = ad.Set("Command", 60021)
+				_ = ad.Set("UseSession", "YES")
+				_ = ad.Set("Sid", n1c.SessionId)
+				_ = ad.Set("ResumeResponse", true)
+				_ = ad.Set("RemoteVersion", "$CondorVersion: 25.4.0 2025-10-31 BuildID: 1 $")
+				_ = ad.Set("CryptoMethods", "AES")
+				m := message.NewMessageForStream(st)
+				_ = m.PutInt(ctx, 60010)
+				_ = m.PutClassAd(ctx, ad)
+				if m.FinishMessage(ctx) != nil {
+					pr.CE.Close()
+					return
+				}
+				reply, err := message.NewMessageFromStream(st).GetClassAd(ctx)
+				if err != nil {
+					pr.CE.Close()
+					return
+				}
+				if rc, _ := reply.EvaluateAttrString("ReturnCode"); rc != "AUTHORIZED" {
+					pr.CE.Close()
+					return
+				}
+				if k := n1c.GetSharedSecret(); len(k) > 0 {
+					_ = st.SetSymmetricKey(k)
+				} else {
+					st.FinalizeDigests()
+				}
+				_, _ = st.ReceiveCompleteMessage(ctx)
+				pr.CE.Close()
+			})
+		} else {
+			s.Go("peer-client", func() {
+				_, err := security.NewAuthenticator(mkC1(), pr.CS).ClientHandshake(ctx)
+				if err == nil {
+					_, _ = pr.CS.ReceiveCompleteMessage(ctx)
+				}
+				pr.CE.Close()
+			})
+		}
+	} else {
+		ut, utStream = pr.CE, pr.CS
+		cfg := strict(60021)
+		cfg.SessionCache = cliCache
+		s.Go("client", func() {
+			n, herr = security.NewAuthenticator(cfg, pr.CS).ClientHandshake(ctx)
+			if herr != nil {
+				pr.CE.Close()
+				return
+			}
+			sendErr = pr.CS.SendMessage(ctx, canary)
+		})
+		s.Go("peer-server", func() {
+			_, err := security.NewAuthenticator(mkS1(), pr.SS).ServerHandshake(ctx)
+			if err == nil {
+				_, _ = pr.SS.ReceiveCompleteMessage(ctx)
+			}
+			pr.SE.Close()
+		})
+	}
+	s.Run()
+	defer func() { pr.CE.CloseQuiet(); pr.SE.CloseQuiet() }()
+	for _, tk := range s.Tasks() {
+		if tk.Panic != nil {
+			s.Violate("panic", "resumed/"+p.Role, fmt.Sprintf("task %s: %v\n%s", tk.Name, tk.Panic, tk.Stack))
+			return
+		}
+	}
+	_ = sendErr
+	R := security.SecurityRequired
+	la, le := hs.Levels[p.A], hs.Levels[p.E]
+	if herr != nil || n == nil {
+		s.Probe("resumed/endpoint-refused")
+		return
+	}
+	streamEnc := utStream.IsEncrypted()
+	wire := ut.SentBytes()
+	cell := fmt.Sprintf("%s role, own policy auth=%s enc=%s integ-required=%v, peer resumes a session established %s (server reaches it through %s); handshake reports resumed=%v authentication=%v encryption=%v", p.Role, la, le, p.Integ, p.Resume, p.Where, n.SessionResumed, n.Authentication, n.Encryption)
+	sig := fmt.Sprintf("%s/%s/%s", p.Role, p.Resume, p.Where)
+	if p.Peer != "" {
+		sig += "/" + p.Peer + "-requester"
+	}
+	if n.SessionResumed {
+		s.Probe("resumed/resumed")
+		if la == R && !authed {
+			s.Violate("required-authentication-not-met-by-resumed-session", sig, cell+": success although the resumed session was never authenticated")
+			return
+		}
+		// (the statement pins the reported authentication flag for full handshakes only)
+	} else {
+		s.Probe("resumed/fell-back-to-full-handshake")
+	}
+	if (le == R || p.Integ) && (!streamEnc || bytes.Contains(wire, canary)) {
+		s.Violate("required-encryption-not-in-effect", sig, fmt.Sprintf("%s: stream encrypted=%v, application payload visible in clear=%v", cell, streamEnc, bytes.Contains(wire, canary)))
+		return
+	}
+	if n.Encryption != streamEnc {
+		s.Violate("reported-encryption-differs-from-stream", sig, fmt.Sprintf("%s: stream encrypted=%v", cell, streamEnc))
+		return
+	}
+	if streamEnc && bytes.Contains(wire, canary) {
+		s.Violate("encrypted-stream-leaks-cleartext", sig, cell)
+	}
+}
+
+func genResumed(g *scen.Gen) {
+	seed := g.Seed * 32452843
+	for _, role := range []string{"server", "client"} {
+		for _, kind := range []string{"authed-keyed", "unauth-keyed", "authed-keyless", "unauth-keyless"} {
+			for _, where := range []string{"own", "fallback"} {
+				if role == "client" && where == "fallback" {
+					continue
+				}
+				peers := []string{""}
+				if role == "server" {
+					peers = []string{"", "scripted"}
+				}
+				for _, peer := range peers {
+					for a := 0; a < 4; a++ {
+						for e := 0; e < 4; e++ {
+							for _, integ := range []bool{false, true} {
+								if integ && e != 2 {
+									continue
+								}
+								seed++
+								if !g.Emit(scen.Case{Seed: seed, Params: scen.Params(params{Role: role, A: a, E: e, Integ: integ, Resume: kind, Where: where, Peer: peer})}) {
+									return
+								}
+							}
+						}
+					}
+				}
+			}
+		}
+	}
+}
+
 func run(s *kernel.Sim, c *scen.Case) {
 	var p params
 	c.P(&p)
 	hs.Init()
+	if p.Resume != "" {
+		runResumed(s, c, p)
+		return
+	}
 	if p.Role == "client" {
 		runClient(s, c, p)
 	} else {
@@ -297,6 +520,9 @@ func gen(g *scen.Gen) {
 	}
 }
 
-var scenarios = []*scen.Scenario{{Name: "deviating-peer", Enumerated: true, Gen: gen, Run: run}}
+var scenarios = []*scen.Scenario{
+	{Name: "deviating-peer", Enumerated: true, Gen: gen, Run: run},
+	{Name: "resumed", Enumerated: true, Gen: genResumed, Run: run},
+}
 
 func TestScenario(t *testing.T) { scen.Main(t, "C03", scenarios) }
